@@ -101,7 +101,7 @@ def get_member(obj, member: 'IdentifierToken'):
         * Provide an API to programmatically override and customize the behavior of this function.
 
     """
-    if not isinstance(member, IdentifierToken):
+    if not issubclass(type(member), IdentifierToken):  # not isinstance(): see below
         raise ParseError(f"member name expected, instead found {member}", member.offset)
     if member.name.startswith('_'):
         raise ParseError(f"Cannot read protected and private member variables: {obj}.{member.name}", member.offset)
@@ -734,18 +734,20 @@ class Expression:
             Any: The resolved value of the token.
 
         """
-        if isinstance(token, NumericToken):
+        # `token` may be an already evaluated value; isinstance() would read its `__class__` through __getattribute__
+        token_type = type(token)
+        if issubclass(token_type, NumericToken):
             return token.value
-        elif isinstance(token, StringToken):
+        elif issubclass(token_type, StringToken):
             return token.raw_token
-        elif isinstance(token, IdentifierToken):
+        elif issubclass(token_type, IdentifierToken):
             if token.name in locals:
                 return locals[token.name]
             elif token.name in globals:
                 return globals[token.name]
             else:
                 raise KeyError(f'Unknown identifier {token.name}')
-        elif isinstance(token, Token):
+        elif issubclass(token_type, Token):
             raise ValueError(f"Unexpected token {token!r}")
         else:
             return token
@@ -786,7 +788,7 @@ class Expression:
                 values.append(t)
         if len(values) != 1:
             raise RuntimeError(f"Unexpected extra tokens: {values[:-1]}")
-        elif isinstance(values[0], IdentifierToken):
+        elif issubclass(type(values[0]), IdentifierToken):  # not isinstance(): the value may be a user object
             values[0] = self.get_value(values[0], locals, globals)
         return values[0]
 
